@@ -667,7 +667,11 @@ class Gen:
                 kind = "count"
             if nums and rng.chance(1, 3) and self.has("cmp"):
                 cv = rng.choice(nums)
-                body.append(("cmp", rng.choice(["lt", "ge", "ne"]), cv, self.const_term(cv[2])))
+                # the aggregate's own variable against a constant or against a variable of the enclosing rule (an
+                # upper / lower bound that depends on the outer scans: what the aggregate-hoisting analysis must respect)
+                outer = self.pick_var(bound, cv[2])
+                rhs = outer if outer is not None and rng.chance(1, 2) else self.const_term(cv[2])
+                body.append(("cmp", rng.choice(["lt", "ge", "ne", "le", "gt"]), cv, rhs))
             if kind == "count":
                 res = self.fresh("number")
                 return ("agg", res[1], "count", "number", None, body), [res]
